@@ -58,6 +58,8 @@ def hybrid_labels(h):
             lb.add("field:" + t["k"])
             if "default" in f:
                 lb.add("has_default_factory" if f.get("factory") else "has_default")
+                if isinstance(f["default"], dict) and "$len" in f["default"]:
+                    lb.add("array_default_declared_as_length")
                 if f["n"] in hh.get("rename", {}):
                     lb.add("renamed_field_with_default")
             if t["k"] == "array":
@@ -116,7 +118,9 @@ def materialise(h, module=None, registry=None, base=None):
             kidnodes.append(mat.Node({"k": "ref", "to": hk.node.spec}, ftype, [hk.node]))
         if "default" in f:
             dv = f["default"]
-            if t["k"] == "array":
+            if t["k"] == "array" and "$len" in dv:
+                dv = dv["$len"]  # a dynamic array whose default is declared as a length
+            elif t["k"] == "array":
                 dv = tg.to_nested(dv)
             if f.get("factory"):
                 ftype = xo.Field(ftype, default_factory=(lambda v=dv: v))
@@ -233,6 +237,9 @@ def expected(h, value):
 def default_of(f):
     t = f["t"]
     if "default" in f:
+        if t["k"] == "array" and "$len" in f["default"]:
+            z = 0.0 if t["item"]["t"].startswith("Float") else 0
+            return {"shape": [f["default"]["$len"]], "flat": [z] * f["default"]["$len"]}
         return copy.deepcopy(f["default"])  # models are mutated in place: never hand out the spec's own object
     if t["k"] == "scalar":
         return 0.0 if t["t"].startswith("Float") else 0
@@ -320,7 +327,10 @@ def _draw_h(draw, cfg, namer, depth):
             if order != list(range(nd)):
                 t["name"] = namer.next("A")
             f["t"] = t
-            if cfg.allow_defaults and all(d is not None for d in shape) and nd == 1 and draw(st.integers(0, 3)) == 0:
+            if cfg.allow_defaults and shape == [None] and draw(st.integers(0, 2)) == 0:
+                f["default"] = {"$len": draw(st.integers(0, 4))}
+                f["factory"] = False
+            elif cfg.allow_defaults and all(d is not None for d in shape) and nd == 1 and draw(st.integers(0, 3)) == 0:
                 n = math.prod(shape)
                 f["default"] = {"shape": list(shape), "flat": [draw(tg.scalar_values(t["item"]["t"]).filter(lambda x: x == x)) for _ in range(n)]}
         elif k == "hybrid":
